@@ -225,11 +225,7 @@ func BuildCorpusOpts(workDir string, o BuildOptions) (*Corpus, error) {
 			if err != nil {
 				return c, err
 			}
-			for _, e := range ex {
-				dropped[e.Unit] = true
-			}
-			c.Excluded = append(c.Excluded, ex...)
-			c.without(dropped)
+			c.exclude(ex, dropped)
 			continue
 		}
 		if o.SkipCompile {
@@ -251,11 +247,7 @@ func BuildCorpusOpts(workDir string, o BuildOptions) (*Corpus, error) {
 		if len(ex) == 0 {
 			break
 		}
-		for _, e := range ex {
-			dropped[e.Unit] = true
-		}
-		c.Excluded = append(c.Excluded, ex...)
-		c.without(dropped)
+		c.exclude(ex, dropped)
 	}
 	for _, m := range c.Modules {
 		d := filepath.Join(c.GoModDir, c.GenDir, m.Name)
@@ -267,6 +259,62 @@ func BuildCorpusOpts(workDir string, o BuildOptions) (*Corpus, error) {
 	c.countGenerated()
 	sort.SliceStable(c.Excluded, func(i, j int) bool { return c.Excluded[i].Unit < c.Excluded[j].Unit })
 	return c, c.WriteMeta()
+}
+
+// exclude drops the given units and, transitively, every declaration that
+// refers to a dropped struct or enum (stage "dependent": not a finding of its
+// own, it merely cannot be generated without the dropped declaration).
+func (c *Corpus) exclude(ex []Excluded, dropped map[string]bool) {
+	for _, e := range ex {
+		dropped[e.Unit] = true
+	}
+	c.Excluded = append(c.Excluded, ex...)
+	refsDropped := func(ts ...*Type) string {
+		for _, t := range ts {
+			if t == nil {
+				continue
+			}
+			for _, r := range t.Refs() {
+				if dropped[r[0]+"."+r[1]] {
+					return r[0] + "." + r[1]
+				}
+			}
+		}
+		return ""
+	}
+	for changed := true; changed; {
+		changed = false
+		add := func(unit, kind, on string) {
+			if on != "" && !dropped[unit] {
+				dropped[unit] = true
+				changed = true
+				c.Excluded = append(c.Excluded, Excluded{Unit: unit, UKind: kind, Stage: "dependent", Diag: "refers to the excluded declaration " + on, Shape: "dependent"})
+			}
+		}
+		for _, m := range c.Modules {
+			for _, s := range m.Structs {
+				var ts []*Type
+				for _, mb := range s.Members {
+					ts = append(ts, mb.Type)
+					if d := mb.Default; d != nil && d.Class == "enum" && dropped[d.EnumModule+"."+d.EnumName] {
+						add(unitStruct(s), "struct", d.EnumModule+"."+d.EnumName)
+					}
+				}
+				add(unitStruct(s), "struct", refsDropped(ts...))
+			}
+			for _, i := range m.Interfaces {
+				for k := range i.Funcs {
+					f := &i.Funcs[k]
+					ts := []*Type{f.Ret}
+					for _, p := range f.Params {
+						ts = append(ts, p.Type)
+					}
+					add(unitFunc(i, f), "func", refsDropped(ts...))
+				}
+			}
+		}
+	}
+	c.without(dropped)
 }
 
 func (c *Corpus) restrict(files []string) {
